@@ -91,6 +91,7 @@ def check(model: Model, run: Run) -> None:
     keyword_combinations(model, run)
     normalised_text_is_what_gets_used(model, run)
     every_extension_is_stored(model, run)
+    extension_names_kept_as_written(model, run)
     from .c16 import parsed_numbers_kept
     parsed_numbers_kept(model, run, "G11-parsed-zero-is-a-value")
     hooks_store_fields_as_given(model, run, [f"{SCHEMA}.{c}" for c in CLASSES], "G10-results-hold-what-was-parsed",
@@ -247,6 +248,66 @@ def every_extension_is_stored(model: Model, run: Run, rule: str = "G13-every-ext
                                  "extension it has just read", model.loc(target.module, w)))
     if n == 0:
         run.note("G13: the extension parser has no loop of its own here: not decided")
+
+
+def extension_names_kept_as_written(model: Model, run: Run, rule: str = "G14-extension-names-kept-as-written") -> None:
+    """G14: the name an extension is stored under is the name the text has (after the `X-` marker): between the place the
+    parser cuts it out of the text and the place it is stored, it is not case-folded, looked up in a table or replaced.
+    RFC 4512 xstrings are case-sensitive keys of the result; `X-Origin` and `X-ORIGIN` are two extensions, and the serialiser
+    writes the key as held - a parser that renames one no longer returns what the text denotes (nor what str() was given)."""
+    from ..rx.sites import group_accesses
+    REWRITES = {"lower", "upper", "casefold", "title", "capitalize", "swapcase", "replace", "translate", "get", "setdefault", "pop", "format", "join"}
+    n = 0
+    seen = set()
+    for cname in CLASSES:
+        fi = model.func(f"{SCHEMA}.{cname}.from_string")
+        ext_nodes = {id(c) for c, _, g in group_accesses(fi.node) if g == "extensions"}
+        ext_vars = {t.id for n_ in ast.walk(fi.node) if isinstance(n_, ast.Assign) and id(n_.value) in ext_nodes for t in n_.targets if isinstance(t, ast.Name)}
+        target = None
+        for n_ in ast.walk(fi.node):
+            if isinstance(n_, ast.Call) and isinstance(n_.func, ast.Name) and n_.args and ((isinstance(n_.args[0], ast.Name) and n_.args[0].id in ext_vars) or id(n_.args[0]) in ext_nodes):
+                q = model.resolve_name(SCHEMA, n_.func.id)
+                if q in model.functions:
+                    target = model.functions[q]
+        if target is None or target.qualname in seen:
+            continue
+        seen.add(target.qualname)
+        rets = [r.value.id for r in walk_no_nested(target.node) if isinstance(r, ast.Return) and isinstance(r.value, ast.Name)]
+        keys = set()
+        for x in walk_no_nested(target.node):
+            if isinstance(x, ast.Assign):
+                for t_ in x.targets:
+                    if isinstance(t_, ast.Subscript) and isinstance(t_.value, ast.Name) and t_.value.id in rets and isinstance(t_.slice, ast.Name):
+                        keys.add(t_.slice.id)
+            if isinstance(x, ast.Call) and isinstance(x.func, ast.Attribute) and isinstance(x.func.value, ast.Name) and x.func.value.id in rets and x.func.attr == "setdefault" and x.args and \
+                    isinstance(x.args[0], ast.Name):
+                keys.add(x.args[0].id)
+            if isinstance(x, ast.Yield) and isinstance(x.value, ast.Tuple) and x.value.elts and isinstance(x.value.elts[0], ast.Name):
+                keys.add(x.value.elts[0].id)
+        for k in sorted(keys):
+            for x in walk_no_nested(target.node):
+                if not (isinstance(x, (ast.Assign, ast.AugAssign, ast.AnnAssign)) and getattr(x, "value", None) is not None):
+                    continue
+                tg = x.targets if isinstance(x, ast.Assign) else [x.target]
+                if not any(isinstance(t_, ast.Name) and t_.id == k for t_ in tg):
+                    continue
+                n += 1
+                bad = None
+                for y in ast.walk(x.value):
+                    if isinstance(y, ast.Call) and isinstance(y.func, ast.Attribute) and y.func.attr in REWRITES:
+                        bad = f"`{norm(y)[:50]}`"
+                    elif isinstance(y, ast.Subscript) and isinstance(y.value, ast.Name) and y.value.id in model.modules[SCHEMA].globals_:
+                        bad = f"a lookup in `{y.value.id}`"
+                    elif isinstance(y, ast.Call) and isinstance(y.func, ast.Name) and model.resolve_name(SCHEMA, y.func.id) in model.functions:
+                        bad = f"`{norm(y)[:50]}`"
+                    if bad:
+                        break
+                run.ob(rule, bad is None, {"function": target.name, "assignment": norm(x)[:70]})
+                if bad:
+                    run.fail(Finding(rule, target.qualname, norm(x)[:80], f"{target.name} stores an extension under a name that went through {bad}: the name in the result is not the name "
+                                     "in the text (two spellings merge into one key, and str() of the result writes a spelling the text never had)", model.loc(target.module, x)))
+    if n == 0:
+        run.note(f"{rule}: no assignment to the stored extension name found: not decided")
 
 
 def keyword_combinations(model: Model, run: Run) -> None:
